@@ -111,7 +111,9 @@ def do_read(x, kind):
     if kind == "col_slice":
         return x[:, ::-1].tolist()
     if kind == "element":
-        return [int(x[i, 0]) for i in range(n) if x.lengths[i] > 0]
+        ls = [int(l) for l in np.asarray(x.lengths)]        # lengths first: the element reads below act on the array as it is
+        return [int(x[i, j]) for i in range(n) for j in range(ls[i] - 1, -1, -1)][:1] + \
+               [int(x[i, j]) for i in range(n) for j in range(ls[i])]
     if kind == "int_col":
         return np.asarray(x[np.asarray(x.lengths) > 0, 0]).tolist()
     if kind == "ufunc":
